@@ -202,6 +202,11 @@ def execute(rec, timeout=30):
                 post = abstract(m2, sc, c2) if sc else None
             except Exception as exc:
                 pre = post = None
+            lim = 160 if m.p.shape[0] == 3 else 1024          # products of three differences must stay below 2^31 in TLC
+            if pre is not None and post is not None and max(abs(x) for q in post['p'] for x in q) > lim:
+                # the model image is exact but too fine for the specification's integer range: this step is not judged
+                events.append({'a': 'NotJudged', 'why': 'model coordinates beyond the exact range of the specification'})
+                break
             if pre is None or post is None:
                 ev['err'] = 'InexactCoordinates'
             else:
